@@ -15,7 +15,7 @@ use serde_json::{json, Value as J};
 use std::collections::HashMap;
 use std::io::Write;
 use xml_dom::{
-    AsNode, Attr, AttrMut, CharacterData, CharacterDataMut, Document, DocumentMut, Element, ElementMut, Node,
+    AsNode, Attr, NamedNodeMap, AttrMut, CharacterData, CharacterDataMut, Document, DocumentMut, Element, ElementMut, Node,
     NodeMut, ProcessingInstruction, ProcessingInstructionMut, TextMut, XmlDocument, XmlNode,
 };
 
@@ -25,6 +25,7 @@ pub fn main(sub: &str, args: &[String]) -> i32 {
         "dom-factory" => factory(args),
         "dom-attrs" => elem_attrs(args),
         "dom-attrmove" => attr_move(args),
+        "dom-attrq" => attr_qname(args),
         "dom-chardata-rerun" => rerun(args),
         _ => {
             eprintln!("unknown subcommand {}", sub);
@@ -969,5 +970,43 @@ pub fn attr_move(args: &[String]) -> i32 {
     });
     out.flush().unwrap();
     println!("{}", json!({"sessions": n}));
+    0
+}
+
+/// C11, AttrQName.tla: one element, one declared attribute name, a subset of {a, p:a, q:a} written.  Observed
+/// without names: the number of attributes and the (value, specified) pair of each, in both views.
+pub fn attr_qname(args: &[String]) -> i32 {
+    let inp = arg_value(args, "--in").unwrap_or("-");
+    let outp = arg_value(args, "--out").unwrap_or("-");
+    let mut out = open_out(outp);
+    let mut n = 0usize;
+    for_each_case(inp, |c| {
+        let text = cps_to_string(&c["text"]);
+        for expanded in [false, true] {
+            let mut ev = json!({"event": "attrq", "d": c["d"], "dk": c["dk"], "w": c["w"], "expanded": expanded,
+                                "parsed": false, "len": 0, "pairs": []});
+            let t2 = text.clone();
+            let got = guarded(move || -> Option<(usize, Vec<J>)> {
+                let doc = parse(&t2, expanded)?;
+                let r = root(&doc)?;
+                let m = xml_dom::AsNode::as_node(&r).attributes()?;
+                let mut pairs = vec![];
+                for a in m.iter() {
+                    let v = a.value().ok()?;
+                    pairs.push(json!([string_to_cps(&v), a.specified()]));
+                }
+                Some((m.length(), pairs))
+            });
+            if let Ok(Some((len, pairs))) = got {
+                ev["parsed"] = json!(true);
+                ev["len"] = json!(len);
+                ev["pairs"] = json!(pairs);
+            }
+            writeln!(out, "{}", ev).unwrap();
+            n += 1;
+        }
+    });
+    out.flush().unwrap();
+    println!("{}", json!({"events": n}));
     0
 }
